@@ -123,6 +123,11 @@ CHECKS.update({
         assumptions=WF_ASSUME + ["width = bytes per line, the wrapper's own measure"],
     ),
 })
+def _c03cli(tier, seed):
+    import c03cli
+    return c03cli.explore(tier, seed)
+
+
 def _c15cli(tier, seed):
     import c15cli
     return c15cli.explore(tier, seed)
@@ -293,3 +298,10 @@ CHECKS["C18"]["rule"] += ("; c18free additionally checks the exit status for 0, 
                          "order, each whole and exactly once (repeated runs, 16 and 3 threads; sampled schedules)")
 CHECKS["C19"]["rule"] += ("; shadowing sources that set different keys (a discovered file under --config-file, a farther file under the nearest one): nothing "
                          "of a shadowed source may leak; keys in upper / mixed case or with a hyphen are unknown keys in every source")
+
+CHECKS["C03"]["cli"] = True
+CHECKS["C03"]["python"] = [_c03cli]
+CHECKS["C03"]["rule"] += ("; CLI form on the shipped binary (c03cli): a directory of seed programs is formatted in place, then `--mode=check` on the "
+                         "directory and on the explicit path list must accept every written file on 1, 2 and the default number of threads - also when "
+                         "0, 1 or several unformatted / undecodable strangers are part of the batch (each file's verdict is its stand-alone verdict) - and a "
+                         "second in-place run must leave every mtime and byte untouched")
